@@ -44,6 +44,10 @@ CLAIMED = {
         text="programs assembled from 20 macro-use scenarios over 11 macro shapes (binding-introducing, free references to helpers / standard procedures / core keywords, nested ellipsis, literals, macro-defining macros, let-syntax and letrec-syntax closing over locals, local shadowing of if) defined as syntax-rules / er / sc / rsc transformers, nested in wrapper binders; every user binder is renamed to a fresh name, a name used inside a macro template, a core keyword or a standard procedure (admissible = not used by user-written code in scope); the renamed program must print what the un-renamed one prints, and both must print the value computed in Python; exploration only",
         note="trusted: the hand-written expected-value functions of the scenarios; renaming targets respect the admissibility rule of DESIGN.md (reader abbreviations count as uses of quote etc.)",
         technique="metamorphic property-based testing (alpha-renaming invariance) with an absolute expected value per scenario, Hypothesis-shrunk"),
+    "C08": dict(
+        text="data built by constructor expressions (flonums from 64-bit patterns: half-precision-seeded, boundary and random; all scalar values as chars / inside strings / inside symbols incl. hex escapes, swept in 4096-value blocks (exhaustive in the thorough tier); Hypothesis trees over all number kinds, strings, symbols needing bars, lists, dotted lists, vectors, bytevectors, shared and circular structure) are written by native write, (scheme write) write and write-shared and read back by native read and (scheme read) read; the datum must come back identical (flonums bit-exact), Python must parse every written flonum to the same double, and every valid text (written form decorated with comments/whitespace) must be accepted by both readers with the same result; exploration only",
+        note="agreement of the two readers is asserted on valid texts only: on malformed text R7RS defines nothing and the readers are lenient in different places (recorded as classes, not violations); cyclic data are written only by the (scheme write) writers (the native writer has no datum labels) and compared through write(read(write(x))) = write(x); an observed defect outside the generated domain (#e1.2 reads as 1199999999999999/10^15) is described in DESIGN.md",
+        technique="round-trip property-based testing (Hypothesis trees, exhaustive scalar sweeps, bit-pattern float sweeps) with an independent parser (Python float) for writer output"),
 }
 
 NOT_YET = "check not built yet in this session (planned, see DESIGN.md section 4)"
